@@ -90,6 +90,26 @@ theorem skel_Replay_ascending :
     hasSub executor_WALFileType_Replay ["call:sort.Sort", "range:sortedTGIDs{"] = true ∧
     executor_WALFileType_Replay.contains "call:sort.Reverse" = false := by decide
 
+/-- `NeedsReplay`: a leftover WAL is replayed when it was never replayed OR when a previous
+    start-up died in the middle of replaying it (C34: replay is idempotent, so the second case is
+    safe and necessary) -/
+theorem skel_NeedsReplay :
+    hasSub executor_WALFileType_NeedsReplay
+      ["if:wf.ReplayState == wal.NOTREPLAYED || wf.ReplayState == wal.REPLAYINPROCESS{", "ret:true,nil", "return", "}",
+       "ret:false,nil", "return"] = true := by decide
+
+/-- `WriteRecords`: a write command is queued only when it is COMPLETE — when the next row belongs
+    to another interval (or year), and once after the loop; rows of the same interval are appended to
+    the pending command before it is queued (`Mkts.Store.writeRecordsAux`) -/
+theorem skel_WriteRecords_queue_points :
+    (dropNoise executor_Writer_WriteRecords).filter
+        (fun a => a = "call:w.walFile.QueueWriteCommand" ∨ a = "call:w.walFile.WriteCommand" ∨ a = "set:cc.Data" ∨
+                  a = "if:index == prevIndex && year == prevYear{" ∨ a = "if:index != prevIndex || year != prevYear{" ∨
+                  a = "if:i == 0{") =
+      ["if:i == 0{", "call:w.walFile.WriteCommand", "if:index == prevIndex && year == prevYear{", "set:cc.Data",
+       "if:index != prevIndex || year != prevYear{", "call:w.walFile.QueueWriteCommand", "call:w.walFile.WriteCommand",
+       "call:w.walFile.QueueWriteCommand"] := by decide
+
 /-! ## effect kinds -/
 
 inductive K where
